@@ -8,6 +8,7 @@ The theorems speak about quantised objects (every real carried as the digits the
 import Iodata.Lemmas.Fmt.FcidumpW
 import Iodata.Lemmas.Fmt.PoscarW
 import Iodata.Lemmas.Fmt.FchkO
+import Iodata.Lemmas.Fmt.WfnS
 import Iodata.Gen.LayoutsW
 
 namespace Iodata.Props.C15W
@@ -103,6 +104,28 @@ generations) and the mass unit factors cancel (otherwise the masses would grow b
 theorem fchk_tables_current :
     (∀ lv ∈ FchkO.levels ++ [fchkL.absent], FchkO.TablesOK (FchkO.resolve lv fchkW) fchkR) ∧
     Chars.upper fchkL.absent = fchkL.absent ∧ Fchk.LayoutOK fchkL ∧ Fchk.RunTypesOK fchkL fchkRunTypes := by
+  decide +kernel
+
+/-! ## WFN (section layer) -/
+
+/-- WFN: the arrays returned by the first reload, taken as an object again, are a fixed point of save/reload and stay in
+the domain (orbital numbers are positions, the default title is kept, an absent `$MOSPIN` section stays absent). -/
+theorem wfn_norm_stable (T : Tables) (L : WfnS.Layout) (hL : WfnS.LayoutOK L) (o : WfnS.Obj) (h : WfnS.Dom T L o) :
+    WfnS.norm L (WfnS.norm L o).obj = WfnS.norm L o ∧ WfnS.Dom T L (WfnS.norm L o).obj :=
+  ⟨WfnS.norm_idem L hL o, WfnS.dom_norm T L hL o h⟩
+
+/-- WFN: generations at the section level; in particular the orbitals are written in the order they were read. -/
+theorem wfn_generations (T : Tables) (L : WfnS.Layout) (hL : WfnS.LayoutOK L) (o : WfnS.Obj) (x₁ : WfnS.Loaded)
+    (h : WfnS.Dom T L o) (h₁ : WfnS.load T L (WfnS.dump T L o) = .ok x₁) :
+    WfnS.load T L (WfnS.dump T L x₁.obj) = .ok x₁ ∧ x₁.obj.mos = o.mos := by
+  rw [WfnS.load_dump T L hL o h] at h₁
+  cases h₁
+  refine ⟨?_, ?_⟩
+  · rw [WfnS.load_dump T L hL _ (WfnS.dom_norm T L hL o h), WfnS.norm_idem L hL]
+  · rw [WfnS.obj_norm]
+
+/-- WFN: the source has the shape the theorems assume. -/
+theorem wfn_current : WfnS.LayoutOK wfnL ∧ wfnSource = WfnS.expectedSource wfnL := by
   decide +kernel
 
 end Iodata.Props.C15W
